@@ -832,7 +832,7 @@ func c09Main(c *Ctx) {
 		probe := []c09Op{{K: "adv", D: r}, {K: "req"}, {K: "adv", D: 500}, {K: "old"}}
 		a, b := c09Run(g, probe, env), c09Run(g, probe, env)
 		if a.Err != nil || b.Err != nil || a.trace() != b.trace() || a.Canon != b.Canon {
-			c.Error("%s: replaying one history twice gave different observations:\n%s\n%s\n%s\n%s", g, a.trace(), b.trace(), a.Canon, b.Canon)
+			c.Unstable("%s: replaying one history twice gave different observations:\n%s\n%s\n%s\n%s", g, a.trace(), b.trace(), a.Canon, b.Canon)
 			return
 		}
 		c.Inc("determinism_probes")
